@@ -35,6 +35,8 @@ const (
 	KModStart   = "mod_start"
 	KModKill    = "mod_kill"
 	KModUpdate  = "mod_update"
+	KRestart    = "restart" // zero-height restart: prepare, export, wipe the service store, import the exported genesis
+	KProbe      = "probe" // read-only observation point on a branch of the state (C17 queries, C19 export/import)
 )
 
 // Action is a fully concrete, serialisable step of a history.
@@ -68,6 +70,7 @@ type Action struct {
 	DeltaNs   int64    `json:"delta_ns,omitempty"` // end_block: block time advance
 	Msgs      []Action `json:"msgs,omitempty"`     // tx
 	Tag       string   `json:"tag,omitempty"`      // generator annotation (e.g. "boundary")
+	Extra     string   `json:"extra,omitempty"`    // probe payload (e.g. the queries to ask)
 }
 
 func (a Action) String() string {
